@@ -185,6 +185,33 @@ def check_export(ctx, case, tr, b):
                     if not near(cols[h][j], x / f, sc, 1e-12):
                         ctx.violation(case, {'why': f"CSV cell {h}[{j}] = {cols[h][j]}, recorded sample converted = {x / f}"})
                         return
+            # the same columns from the Lean model (`exportColumn`: every stored sample, with the unit it is stored in,
+            # converted on its own)
+            if ctx.driver.available and rng.random() < 0.5:
+                from harness.units_h import uidx
+                lines, owners = [], []
+                series = [('Time', tu, head[0], list(b.pt.time))]
+                for v, h in zip(e.keys(), head[1:]):
+                    if v != 'pwm' and rng.random() < 0.4:
+                        series.append((UNIT_ARG[v][1], units[UNIT_ARG[v][0]], h, list(b.E[ei].time_variables[v])))
+                for kind, u, h, qs in series:
+                    try:
+                        toks = ','.join(f'{R(q.value)}:{uidx(kind, q.unit)}' for q in qs)
+                    except (ValueError, AttributeError, TypeError):
+                        continue
+                    lines.append(f'u col {kind} {uidx(kind, u)} {toks}')
+                    owners.append(h)
+                    ctx.count('export column with samples in ' + ('one unit' if len({q.unit for q in qs}) == 1 else 'several units'))
+                for h, ans in zip(owners, ctx.driver.ask(lines)):
+                    w = ans.split()
+                    try:
+                        model = [float(x) for x in w[1].split(',')] if w[0] == 'ok' else None
+                    except (ValueError, IndexError):
+                        model = None
+                    sc = max([abs(x) for x in cols[h]] + [1e-300])
+                    if model is None or len(model) != len(cols[h]) or not all(near(a_, b_, sc, 1e-12) for a_, b_ in zip(model, cols[h])):
+                        ctx.mismatch({**case, 'column': h, 'element': tr['names'][ei]}, cols[h], ans[:300])
+                        return
     ctx.count('exports checked')
 
 
